@@ -150,6 +150,7 @@ class LatticeRun:
         self.T: dict[int, Tab] = {}
         self.T2: dict[tuple, Tab] = {}
         self.scribble = True     # dirty runs may overwrite the stored bounds through the public bulk bound setters
+        self.alt_ops = True      # histories use the *_alt operations whenever v2 is set
         self.v2 = None           # optional alternative values: histories may re-reveal a coalition with a DIFFERENT value
         self.fresh_obj: dict[int, Any] = {}
         self.dead = False        # stop after the first violations of this unit (keeps broken trees fast)
@@ -371,8 +372,12 @@ class LatticeRun:
         return short if len(hist) > len(short) else list(hist)
 
     # -- mode 3: dirty-run BFS
-    def dirty(self, d: int, Ks=None, resets: bool = True, extra_ops: bool = False) -> None:
+    def dirty(self, d: int, Ks=None, resets: bool = True, extra_ops: bool = False, prelife: bool = False) -> None:
         """From every clean state: every sequence of 1..d non-compute operations, then compute.
+
+        prelife=True: the object is not new. It first served ANOTHER game (values v2, minimal knowledge, bounds computed), was
+        then bulk-reset to this game's values on K, and the run starts there with NO compute in between: whatever the
+        previous life left in the object (stale bounds of unknown rows, memo) is still in it when the first operation arrives.
 
         A state is the whole real object: it is snapshotted with copy.deepcopy (every instance attribute, so memoised
         results or dirty flags the object keeps outside its table travel along), NOT with the public copy(), which
@@ -387,22 +392,24 @@ class LatticeRun:
         for K in (Ks if Ks is not None else list(self.all_K())):
             if self.dead:
                 return
-            h0 = [("reset", K), ("compute",)]
+            h0 = [("reset", K), ("compute",)] if not prelife else [("reset_alt", self.base, self.base), ("compute",), ("reset", K)]
             root = new_game(self.n, self.comp)
-            ok = self._call("reset", h0[:1], apply_op, root, self.v, h0[0]) and \
-                self._call("compute", h0, apply_op, root, self.v, h0[1])
+            ok = True
+            for i, op0 in enumerate(h0):
+                ok = ok and self._call(op0[0], h0[:i + 1], apply_op, root, self.v, op0)
             if not ok:
                 return
             t0 = read(root)
-            # idempotence of compute on a clean state (same object)
-            g2 = _copy.deepcopy(root)
-            h = h0 + [("compute",)]
-            if not self._call("compute_bounds", h, apply_op, g2, self.v, ("compute",)):
-                return
-            self.stats.transitions += 1
-            if read(g2).key != t0.key:
-                self._viol("compute_bounds is not idempotent", h, K=kmask_ids(K))
-            frontier = [(root, (K, 0), list(h0))]
+            if not prelife:
+                # idempotence of compute on a clean state (same object)
+                g2 = _copy.deepcopy(root)
+                h = h0 + [("compute",)]
+                if not self._call("compute_bounds", h, apply_op, g2, self.v, ("compute",)):
+                    return
+                self.stats.transitions += 1
+                if read(g2).key != t0.key:
+                    self._viol("compute_bounds is not idempotent", h, K=kmask_ids(K))
+            frontier = [(root, (K | 1, 0), list(h0))]
             seen = {(t0.key, repr(deep_digest({a: b for a, b in vars(root).items() if a != "_values"})))}
             for depth in range(1, d + 1):
                 nxt = []
@@ -519,7 +526,7 @@ class LatticeRun:
         if extra_ops:
             for s in self.ex:
                 ops.append(("set", s) if not k >> s & 1 else ("unset", s))
-        if self.v2 is not None:
+        if self.v2 is not None and self.alt_ops:
             for s in self.ex:
                 ops.append(("reveal_alt", s) if not k >> s & 1 else ("set_alt", s))
         if self.scribble:
